@@ -48,7 +48,7 @@ CASES = ["lower", "upper", "mixed"]
 SUPPORTED_PATH = os.path.join(VERIF_ROOT, "checks", "supported_set.json")
 
 
-REGISTER_LIKE = ["a", "A", "x", "Y", "s", "S", "b", "w", "L", "k_v"]
+REGISTER_LIKE = ["a", "A", "x", "Y", "s", "S", "b", "w", "L", "k_v", "_v", "_Cnt9", "__"]
 
 
 def selftest() -> None:
